@@ -60,6 +60,9 @@ def gen_spec(r, w, signed, text=False):
     return out + (t or "")
 
 
+_WIDTH = re.compile(r"([1-9][0-9]*)_?[bodxXcs]?$")
+
+
 def inject(prog, r, n_events):
     """Insert tagged Print / Assert / Assume statements of domain sync at random places of the statement tree."""
     prog = copy.deepcopy(prog)
@@ -95,21 +98,41 @@ def inject(prog, r, n_events):
 
     def fmt(tag):
         n = r.randint(0, 3)
-        args, text = [], tag
         manual = n >= 2 and r.random() < 0.3
-        order = list(range(n))
-        if manual:
-            r.shuffle(order)
+        fields = []
         for k in range(n):
             a = arg()
-            args.append(a)
-        for k in range(n):
-            a = args[order[k]]
             w, sg = shape_of(a)
             spec = gen_spec(r, w, sg, text=(a[0] == "sig" and a[1] in ("t0", "t1")))
+            nested = []
+            m = _WIDTH.search(spec)
+            if m and r.random() < 0.3:
+                # the width comes from a nested replacement field (a plain Python integer), possibly with a specification of its own
+                digits = m.group(1)
+                zero_ok = spec[-1:] not in ("c", "s") and len(digits) == 1 and (m.start() == 0 or spec[m.start() - 1] != "0")
+                form = r.choice(["", ":d", ":02d", ":02d"] if zero_ok else ["", ":d"])
+                nested.append((["pyint", int(digits)], form))
+                spec = spec[:m.start(1)] + "\x00" + spec[m.end(1):]
+            fields.append((a, spec, nested))
+        args, slots = [], []
+        for a, spec, nested in fields:
+            i = len(args)
+            args.append(a)
+            ni = []
+            for pa, form in nested:
+                ni.append(len(args))
+                args.append(pa)
+            slots.append((i, ni))
+        perm = list(range(len(args)))
+        if manual:
+            r.shuffle(perm)
+            args = [args[perm.index(j)] for j in range(len(args))]
+        text = tag
+        for (a, spec, nested), (i, ni) in zip(fields, slots):
+            for (pa, form), j in zip(nested, ni):
+                spec = spec.replace("\x00", "{" + (str(perm[j]) if manual else "") + form + "}", 1)
             text += r.choice(["", " ", "{{", "}}", " v=", "|"])
-            idx = str(order[k]) if manual else ""
-            text += "{" + idx + (":" + spec if spec else "") + "}"
+            text += "{" + (str(perm[i]) if manual else "") + (":" + spec if spec else "") + "}"
         text += r.choice(["", "\n", " end", "}}"])
         return text, args
     for k in range(n_events):
@@ -183,6 +206,9 @@ def expected_text(st, env, reg):
     fmt, args = (st[2], st[3]) if st[0] == "print" else (st[3], st[4])
     exps = []
     for a in args:
+        if a[0] == "pyint":
+            exps.append(a[1])        # a plain Python object: formatted by Python when the statement is built
+            continue
         v, (w, s) = refsem.ref_eval(a, env)
         exps.append(Exp(v, w, s, reg))
     return fmt.format(*exps)
@@ -203,6 +229,19 @@ def _fold(seq, const_of):
     return out
 
 
+def _same_rendering(g, e):
+    """Two different specification strings that render every value of the operands' range identically (decided by running
+    format() over the whole range, which is at most a few thousand integers here) are the same specification."""
+    try:
+        lo = min(x.lo if is_sym(x) else x for x in (g[0], e[0]))
+        hi = max(x.hi if is_sym(x) else x for x in (g[0], e[0]))
+        if hi - lo > 1 << 12:
+            return False
+        return all(format(v, g[1]) == format(v, e[1]) for v in range(lo, hi + 1))
+    except (ValueError, AttributeError, TypeError, OverflowError):
+        return False
+
+
 def templates_differ(got, exp_text, reg, const_of=None):
     """None if structurally different (caller decides), else list of z3 terms 'value differs'."""
     exp = split_template(exp_text, _EXP, lambda n: reg[n])
@@ -217,7 +256,7 @@ def templates_differ(got, exp_text, reg, const_of=None):
             if g != e:
                 return None
             continue
-        if g[1] != e[1]:
+        if g[1] != e[1] and not _same_rendering(g, e):
             return None
         ne = (g[0] != e[0])
         if ne is True:
@@ -680,11 +719,46 @@ def py_str_spec():
     return z3.Concat(opt(z3.Concat(opt(anyc), align)), opt(R("0")), width, opt(R("s")))
 
 
+AM_INT = r"(?:.?[<>=])?[-+ ]?#?0?(?:[1-9][0-9]*)?_?[bodxX]?"
+AM_TEXT = r"(?:.?[<>])?(?:[1-9][0-9]*)?"
+
+
+def am_accepts(spec, width, signed):
+    """The grammar Format documents for itself (the rule list of _parse_format_spec and the invariants written next to the
+    dictionary it returns), transcribed independently: integer presentations take fill/align/sign/#/0/width/_; 'c' and 's'
+    take fill, '<' or '>' and a width only, on unsigned values, 's' on whole bytes."""
+    import re as _re
+    if _re.fullmatch(AM_INT, spec, _re.S):
+        return True
+    if not signed and _re.fullmatch(AM_TEXT + "c", spec, _re.S):
+        return True
+    return not signed and width % 8 == 0 and bool(_re.fullmatch(AM_TEXT + "s", spec, _re.S))
+
+
+def am_spec(width, signed):
+    """am_accepts as a z3 regular expression."""
+    R = lambda s: z3.Re(z3.StringVal(s))
+    RS = z3.ReSort(z3.StringSort())
+    opt = z3.Option
+    anyc = z3.AllChar(RS)
+    U = z3.Union
+    width_re = opt(z3.Concat(z3.Range("1", "9"), z3.Star(z3.Range("0", "9"))))
+    L = z3.Concat(opt(z3.Concat(opt(anyc), U(R("<"), R(">"), R("=")))), opt(U(R("+"), R("-"), R(" "))), opt(R("#")), opt(R("0")), width_re,
+                  opt(R("_")), opt(U(*[R(t) for t in "bodxX"])))
+    text = z3.Concat(opt(z3.Concat(opt(anyc), U(R("<"), R(">")))), width_re)
+    if not signed:
+        L = U(L, z3.Concat(text, R("c")))
+        if width % 8 == 0:
+            L = U(L, z3.Concat(text, R("s")))
+    return L
+
+
 def validate_reference():
     """The reference regexes against the real format() on a grid of option combinations."""
     n = 0
     s = z3.Solver()
     Li, Ls = py_int_spec(False), py_str_spec()
+    Lam8, Lam5s = am_spec(8, False), am_spec(5, True)
     specs = set()
     for fill in ("", "*", "0", "<", "+"):
         for al in ("", "<", "=", "^"):
@@ -708,8 +782,8 @@ def validate_reference():
                 return True
             except ValueError:
                 return False
-        for val, L in ((65, Li), ("ab", Ls)):
-            want = ok(val)
+        for val, L in ((65, Li), ("ab", Ls), (None, Lam8), (None, Lam5s)):
+            want = ok(val) if val is not None else am_accepts(sp, 8, False) if L is Lam8 else am_accepts(sp, 5, True)
             s.push()
             s.add(z3.InRe(z3.StringVal(sp), L))
             got = s.check() == z3.sat
@@ -730,6 +804,7 @@ def grammar_job(job):
     sp = SymPattern(real_pat)
     spec_var = z3.String("spec")
     Li, Ls = py_int_spec(signed), py_str_spec()
+    Lam = am_spec(width, signed)
 
     def scen():
         try:
@@ -783,6 +858,17 @@ def grammar_job(job):
         r = timed_check(s)
         if r == z3.unknown:
             return [dict(base, status=INCONCLUSIVE, detail="solver unknown")]
+        if r != z3.sat:
+            # "invalid specifications are rejected": the path's specifications lie inside the grammar Format documents
+            s = z3.Solver()
+            s.set("timeout", 60000)
+            s.add(z3.InRe(x, lang.of(mt.spec)))
+            s.add(z3.Not(z3.InRe(x, Lam)))
+            queries += 1
+            r = timed_check(s)
+            if r == z3.unknown:
+                return [dict(base, status=INCONCLUSIVE, detail="solver unknown")]
+            is_s = False
         if r == z3.sat:
             spec = _unescape(s.model().eval(x, model_completion=True).as_string()) + ("s" if is_s else "")
             rep = replay_spec(spec, width, signed)
@@ -893,6 +979,8 @@ def replay_spec(spec, width, signed):
             Format("{:" + spec + "}", sig)
     except (ValueError, TypeError, IndexError, KeyError):
         return ""
+    if not am_accepts(spec, width, signed):
+        return "Format accepts it, but it is outside the documented grammar (fill, align, sign, #, 0, width, _, type; c/s: fill, < or >, width only)"
     vals = [0, 1, (1 << width - 1) - 1 if width else 0, -1 if signed else (1 << width) - 1 if width else 0]
     for v in vals:
         try:
@@ -948,6 +1036,11 @@ def corner_programs():
               "stmts": [["fsm", "sync", "fsm", "A",
                          [["A", [["print", "sync", "<0>in A {:02x}", [sg("t0", 8)]], ["if", [[sg("i0", 3), [["next", "fsm", "B"]]]], None]]],
                           ["B", [["assert", "sync", sg("i1", 4, True), "<1>B with {:=+5d}", [sg("i1", 4, True)]], ["next", "fsm", "A"]]]]],
+                        ["assign", "sync", sg("r0", 3), sg("i0", 3)]]})
+    # replacement fields nested inside a specification, with and without specifications of their own, automatic and manual numbering
+    P.append({"signals": copy.deepcopy(base_sigs), "fsms": {},
+              "stmts": [["print", "sync", "<0>{:{:02d}x}|{:{}>{:+d}}", [sg("t0", 8), ["pyint", 4], sg("i1", 4, True), ["pyint", "*"], ["pyint", 6]]],
+                        ["assert", "sync", sg("i0", 3), "<1>{2:{0:02d}b} {1!r:>4}", [["pyint", 7], ["pyint", "q"], sg("i0", 3)]],
                         ["assign", "sync", sg("r0", 3), sg("i0", 3)]]})
     return P
 
